@@ -63,6 +63,10 @@ def _check_lock_and_prefix(run, repo, world):
     fns, callers = build(world)
     check_lock_pair(run, repo, world, fns)
     _check_edt(run, repo, world, fns)
+    # recovery from a silent gateway: what arrives late is discarded before
+    # the next command (shared with C16)
+    from .C16 import _check_flush
+    _check_flush(run, repo, world)
 
 
 def _check_slot(run, repo, world, mod):
